@@ -318,3 +318,9 @@ def policies_bounded(vc):
         best = R[r_, c_].sum()
     ok = A.sum() == k and bool(np.all(A.sum(axis=0) <= 1)) and bool(np.all(A.sum(axis=1) <= 1)) and abs(R[A].sum() - best) < 1e-9 and bool(np.array_equal(out["munkres"], A & V))
     vc.ensure("B-C07-large.munkres-opt", bool(ok))
+
+
+# the engine hands the reward workers its sensors in matrix-column order and creates one task job per tasked target (C08 assess_jobs): re-checked in this property's own run
+from pyvc.harness import share as _share  # noqa: E402
+from contracts import C08 as _C08  # noqa: E402,F401
+_share("C08", "assess_jobs", "C07")
